@@ -135,6 +135,14 @@ Definition mem_expand_exact (c : cfg) (additional : N) : M st unit :=
   do n <- of_ovf (uadd (c_trap c) (vcap v) additional);
   mem_resize c n.
 
+(** [StackN::build]'s "N elements fit in SIZE bytes" test. *)
+Definition stackn_fits (n sz size : N) : bool :=
+  match checked_mul n sz with Some bytes => bytes <=? size | None => false end.
+(** ... and as in the pinned tree ([N * size] unchecked: wraps in a release build), kept
+    for the refutation witness of defect D17. *)
+Definition stackn_fits_pinned (trap : bool) (n sz size : N) : option bool :=
+  match umul trap n sz with Some bytes => Some (bytes <=? size) | None => None end.
+
 (** [MemBuilder::build] for a fresh vector of the world's element layout. *)
 Definition mem_build (c : cfg) (bk : bkind) : M st unit :=
   match bk with
@@ -144,8 +152,8 @@ Definition mem_build (c : cfg) (bk : bkind) : M st unit :=
       setv (fun _ => {| vlen := 0; vcap := cap; vmem := uninit (N.to_nat size);
                         vgen := 0; vbk := bk |})
   | BStackN n size =>
-      do bytes <- of_ovf (umul (c_trap c) n (c_sz c));
-      if bytes <=? size then
+      (* assert!(N.checked_mul(size).map_or(false, |bytes| bytes <= SIZE), "Insufficient storage!") *)
+      if stackn_fits n (c_sz c) size then
         setv (fun _ => {| vlen := 0; vcap := n; vmem := uninit (N.to_nat size);
                           vgen := 0; vbk := bk |})
       else raise PStackN
